@@ -123,7 +123,7 @@ def main():
         'setup_cmd': 'bin/vsetup',
         'hooks': {
             'guard': 'verif',
-            'enable': 'bin/vbuild: go build -tags verif -overlay <generated> -ldflags=-checklinkname=0; accessor files (harness/_ovl/**, all //go:build verif) are added to the repository packages through the build overlay, the repository carries no hook',
+            'enable': 'bin/vbuild: go build -tags verif -overlay <generated> -ldflags=-checklinkname=0. The overlay is generated from the current /repo tree on every build: accessor files (harness/_ovl/**, //go:build verif) added to repository packages; one accessor file added to the raft package of the module cache (harness/_ovl_mod/**: synchronous raft node); copies of pkg/order/etcdraft/node.go and pkg/order/solo/node.go with generated per-select-case methods appended (tools/maprewrite -extract); textual clock/random seams in copies of three files; for the C01 binary (VERIF_MAPRW=1) copies of the executor/contracts/ledger/proof/vm files with range-over-map, fork-join and time.Now seams (tools/maprewrite); VERIF_RACE=1 builds the race-detector binary. The repository carries no hook and is never edited by a check (VERIF_REPO=<dir> checks another checkout).',
             'baseline_off_cmd': "cd /repo && GOFLAGS=-mod=mod go test -vet=off -count=1 -timeout 25m ./...",
             'source_commits': [],
             'add_only': True,
